@@ -2,13 +2,13 @@
 from vlib.bitgen import hx, nal_src, chunkings, escape
 
 ID = "C10"
-RULE = ("message lists with types from {0,1,4,5,127,128,129,254,255,256,509,510,511,765,65535,...} and payload lengths from "
+RULE = ("every payload type 0..299 once; message lists with types from {0,1,4,5,127,128,129,254,255,256,509,510,511,765,65535,...} and payload lengths from "
         "{0,1,2,254,255,256,509,510,511,random<=700}, payload bytes incl. zero runs that need emulation prevention, coded "
         "with 0xFF extension bytes + trailing bits; read from contiguous RBSP, from escaped NALs in random chunkings, "
         "complete and incomplete; every truncation of some; type 128 in first and later position; 1..10 extra next() "
         "calls after the end. observable: every result of next(). non-trivial = at least one message or an error after one")
 CORRESPONDENCE = "Model/Sei.v sei_next vs SeiReader::next"
-ASSUMPTIONS = ["types/sizes that overflow u32 need > 16 MiB of 0xFF bytes: exercised only in the thorough tier"]
+ASSUMPTIONS = ["types/sizes around 2^32 (16843009 bytes of 0xFF) run on the implementation only, judged by the oracle in extra_check; the model side is theorem C10_u32_overflow"]
 
 
 def ff(n):
@@ -49,6 +49,10 @@ def gen(tier, rng):
             for k in range(1, len(nal) + 1):
                 cases.append("sei %s 2" % nal_src([nal[:k]], False))
                 cases.append("sei %s 2" % nal_src([nal[:k]], True))
+    # every payload type 0..300 once (the type-name table of HeaderType::from_id), in groups of 10
+    for base in range(0, 300, 10):
+        msgs = [(t, bytes([t & 0x7f, 1])) for t in range(base, base + 10)]
+        cases.append("sei raw:%s 1" % hx(enc_msgs(msgs)))
     # corrupt NALs (forbidden sequences inside)
     for _ in range(200 if tier == "quick" else 4000):
         msgs = [(rng.choice(types), bytes(rng.randrange(4) for _ in range(rng.randrange(0, 30)))) for _ in range(rng.randrange(1, 4))]
@@ -56,10 +60,10 @@ def gen(tier, rng):
         pos = rng.randrange(1, len(nal))
         nal[pos:pos] = rng.choice([b"\x00\x00\x00", b"\x00\x00\x03\x05", b"\x00\x00\x01"])
         cases.append("sei %s 2" % nal_src(chunkings(rng, bytes(nal), 1)[0], True))
-    if tier == "thorough":
-        big = b"\xff" * 16843009 + b"\x05\x00\x80"
-        cases.append("sei raw:%s 1" % hx(big))
-        cases.append("sei raw:%s 1" % hx(b"\x01" + big))
+    # types / sizes around 2^32: coded with 16843009 bytes of 0xFF (= 2^32 - 1) plus a last byte; built inside the harness
+    # (`seibig pre n post extra`), implementation only - the model side of this is theorem C10_u32_overflow
+    for pre, post in (("-", "000080"), ("-", "010080"), ("-", "fe0080"), ("05", "0180"), ("05", "fe80"), ("0500" + "05", "0280")):
+        cases.append("!seibig %s 16843009 %s 1" % (pre, post))
     return cases
 
 
@@ -68,8 +72,34 @@ def nontrivial(r):
     return "M:" in a
 
 
+def big_oracle(r):
+    """seibig: a type or size that does not fit 32 bits is an error; 2^32-1 itself is a value"""
+    p = r["case"].lstrip("!").split()
+    pre = bytes.fromhex(p[1]) if p[1] != "-" else b""
+    post = bytes.fromhex(p[3])
+    total = 255 * int(p[2]) + post[0]
+    toks = r["dev"].split()
+    # messages before the big field (pre holds whole messages or a type byte)
+    is_size = len(pre) in (1, 3)
+    k = 1 if len(pre) == 3 else 0           # one complete message precedes
+    if len(toks) <= k:
+        return ("value", "no answer for the big field")
+    t = toks[k]
+    if total >= 2 ** 32:
+        ok = t.startswith("E:") and "InvalidData" in t
+    elif is_size:
+        ok = t.startswith("E:")               # size 2^32-1 fits but runs past the data
+    else:
+        ok = t.startswith("M:") and str(total) in t
+    return None if ok else ("value", "u32 boundary of a 0xFF-coded %s: total %d answered %s" % ("size" if is_size else "type", total, t[:80]))
+
+
 def extra_check(r):
     """fused: after None or an error every further call reports None"""
+    if r["case"].lstrip("!").startswith("seibig"):
+        d = big_oracle(r)
+        if d:
+            return d
     toks = r["dev"].split()
     seen_end = False
     for t in toks:
